@@ -226,6 +226,7 @@ impl SubReport {
 }
 
 pub struct RunEnv {
+    pub quick_mult: u32,
     pub property: String,
     pub tier: Tier,
     pub seed: u64,
@@ -243,7 +244,7 @@ pub struct Slot {
 
 pub trait DynSub: Sync + Send {
     fn name(&self) -> &'static str;
-    fn njobs(&self, tier: Tier) -> usize;
+    fn njobs(&self, tier: Tier, quick_mult: u32) -> usize;
     fn run_job(&self, env: &RunEnv, job: usize, njobs: usize, slot: usize) -> SubReport;
     fn replay(&self, case: &Value) -> Result<Result<(), Fail>, String>;
     fn bytes_to_json(&self, b: &[u8]) -> Value;
@@ -358,8 +359,8 @@ impl<C: CaseT> DynSub for Sub<C> {
     fn name(&self) -> &'static str {
         self.name
     }
-    fn njobs(&self, tier: Tier) -> usize {
-        let n = tier.pick(self.cases.0, self.cases.1) as usize;
+    fn njobs(&self, tier: Tier, quick_mult: u32) -> usize {
+        let n = tier.pick(self.cases.0 * quick_mult, self.cases.1) as usize;
         let by_size = (n + 49) / 50;
         let mut j = by_size.clamp(1, 16);
         if self.enumerate.is_some() {
@@ -396,7 +397,7 @@ impl<C: CaseT> DynSub for Sub<C> {
             return rep;
         }
         let rjobs = if self.enumerate.is_some() { njobs - 1 } else { njobs };
-        let total = tier.pick(self.cases.0, self.cases.1) as usize;
+        let total = tier.pick(self.cases.0 * env.quick_mult, self.cases.1) as usize;
         let mine = total / rjobs + if job < total % rjobs { 1 } else { 0 };
         if mine == 0 {
             return rep;
@@ -516,6 +517,8 @@ pub fn sub_enum<C: CaseT>(
 
 pub struct Property {
     pub id: &'static str,
+    /// the quick tier runs `quick_mult` times the per-sub-check base count
+    pub quick_mult: u32,
     pub rule: &'static str,
     pub assumptions: Vec<String>,
     pub subs: Vec<Box<dyn DynSub>>,
@@ -638,6 +641,7 @@ pub fn run_property(prop: Property, tier: Tier, seed: u64) -> i32 {
     // ---- generated search
     let env = Arc::new(RunEnv {
         property: prop.id.to_string(),
+        quick_mult: prop.quick_mult,
         tier,
         seed,
         tolerated,
@@ -658,7 +662,7 @@ pub fn run_property(prop: Property, tier: Tier, seed: u64) -> i32 {
                 continue;
             }
         }
-        let nj = s.njobs(tier);
+        let nj = s.njobs(tier, prop.quick_mult);
         for j in 0..nj {
             jobs.push((si, j, nj));
         }
@@ -819,7 +823,7 @@ pub fn run_property(prop: Property, tier: Tier, seed: u64) -> i32 {
         "wall_s": wall,
         "violations": violations.len(),
     });
-    if only_sub.is_none() {
+    if only_sub.is_none() && std::env::var("VERIF_NOEVIDENCE").is_err() {
         let evdir = root.join("evidence");
         let _ = std::fs::create_dir_all(&evdir);
         let _ = std::fs::write(
